@@ -19,9 +19,13 @@
         (requests and the 3 s ping) and from the reader after 10 s of silence.
 
     All critical sections of queriesMutex / connMutex / Connection.mu on these paths
-    contain no blocking operation, so each is one atomic step here (the auth
-    handshake, which sends on a channel while holding Connection.mu, is not
-    modelled: connections without an auth key).  Payloads and ids are opaque N. *)
+    contain no blocking operation, so each is one atomic step here.  Connections
+    without an auth key: the auth handshake is not modelled, and a
+    tcp.authentificationNonce packet is rejected by handleAuthResponse like any
+    unexpected packet (before the fix "do not answer an auth nonce without an auth
+    key" it sent on authCompleteChan while holding Connection.mu and, with the
+    status Connecting, blocked forever: every later Send hung).  Payloads and ids
+    are opaque N. *)
 From Coq Require Import List NArith Bool Arith.
 Import ListNotations.
 
@@ -37,7 +41,7 @@ Inductive call_pc :=
 Inductive packet :=
 | PAnswer (id d : N)      (* adnl.message.answer for query id with payload d *)
 | PMalformed (id : N)     (* answer magic and id, but the length prefix does not decode *)
-| PPong                   (* tcp.pong: consumed by Connection.reader *)
+| PPong                   (* tcp.pong / tcp.authentificationNonce: consumed by Connection.reader *)
 | PJunk.                  (* any other magic, or an answer shorter than 37 bytes *)
 
 Record state := mkC {
@@ -128,7 +132,8 @@ Section Step.
         end
     | LSendOk i =>
         match pc s i with
-        | CPicked k => if status s k && negb (broken s k)
+        | CPicked k => if status s k            (* on a dead TCP connection the first write(s) still
+                                                     succeed: the query is lost and the call times out *)
                        then Some (set_pc s (cupd (pc s) i CSent)) else None
         | _ => None
         end
@@ -218,10 +223,10 @@ Section Step.
   | reach_init : reachable s0 s0
   | reach_step s l s' : reachable s0 s -> step s l = Some s' -> reachable s0 s'.
 
-  Fixpoint run (s : state) (ls : list label) : option state :=
+  Fixpoint exec (s : state) (ls : list label) : option state :=
     match ls with
     | [] => Some s
-    | l :: t => match step s l with Some s' => run s' t | None => None end
+    | l :: t => match step s l with Some s' => exec s' t | None => None end
     end.
 End Step.
 
